@@ -455,6 +455,7 @@ def _is_cyclic_subsequence(seq: List[str], cyc: List[str]) -> Tuple[bool, str]:
 
 # --------------------------------------------------------------------- O3
 def o3(prog: Program, chk: Check) -> None:
+    _PROG["prog"] = prog
     chk.rule("O3", "float-time controls are mapped to steps by round((t - start_time)/dt); "
              "`None` means no control and _apply_system_superoperator skips it", floor=3)
     u = prog.unit("control:Control.get_controls")
@@ -570,8 +571,68 @@ def o3b(prog: Program, chk: Check) -> None:
             ok, "" if ok else "step / post are not forwarded unchanged")
 
 
+def _rounds_in(unit_node: ast.AST) -> List[ast.Call]:
+    return [c for c in ast.walk(unit_node) if isinstance(c, ast.Call)
+            and (dotted(c.func) or "").split(".")[-1] in ("round", "rint", "around") and c.args
+            and any(isinstance(x, ast.BinOp) and isinstance(x.op, ast.Div) for x in ast.walk(c.args[0]))]
+
+
+_PROG = {}
+
+
 def _is_rounded_relative_time(du: DefUse, nid: int, e: ast.AST) -> Tuple[bool, str]:
-    """e (or its unique definition) is round/rint((T - start_time)/dt)."""
+    """e (or its unique definition) is round/rint((T - start_time)/dt); a call of
+    a helper method of the same class is followed into the helper."""
+    e0 = e
+    for _ in range(3):
+        if isinstance(e0, ast.Name):
+            d0 = du.unique_value(nid, e0.id)
+            if d0 is None or d0.value is None or d0.sel:
+                break
+            nid0, e0 = d0.node, d0.value
+        else:
+            break
+    if isinstance(e0, ast.Call) and method_call(e0) and method_call(e0)[0] == "self" \
+            and _PROG.get("prog") is not None:
+        prog = _PROG["prog"]
+        ci = prog.class_of_unit(du.unit)
+        hu = prog.find_method(ci, method_call(e0)[1]) if ci else None
+        if hu is not None:
+            rs = _rounds_in(hu.node)
+            if not rs:
+                return False, f"helper {hu.name} does not round a time quotient"
+            hdu = DefUse(hu, CFG(hu.node, exc_edges=False))
+            for r in rs:
+                ok, why = _round_form_ok(hdu, r)
+                if not ok:
+                    return False, f"in helper {hu.name}: {why}"
+            return True, f"rounded in helper {hu.name}: (T - START)/DT"
+    return _is_rounded_relative_time_local(du, nid, e)
+
+
+def _round_form_ok(du: DefUse, r: ast.Call) -> Tuple[bool, str]:
+    from oqv.dataflow import form_at
+
+    def res(x):
+        d = dotted(x)
+        if d == "start_time":
+            return Poly.sym("START")
+        if d == "dt":
+            return Poly.sym("DT")
+        if isinstance(x, (ast.Subscript, ast.Name)) and "_control_times" in norm(x):
+            return Poly.sym("T")
+        if isinstance(x, ast.Name):
+            dd = du.unique_value(du.node_of(r), x.id)
+            if dd is not None and dd.value is not None and "_control_times" in norm(dd.value):
+                return Poly.sym("T")
+        return None
+    f = eval_form(r.args[0], res)
+    want = (Poly.sym("T") - Poly.sym("START")).div(Poly.sym("DT"))
+    return f == want, (f"round({f})" if f == want else
+                       f"float control times are rounded as {f}, not (T - START)/DT")
+
+
+def _is_rounded_relative_time_local(du: DefUse, nid: int, e: ast.AST) -> Tuple[bool, str]:
     for _ in range(3):
         if isinstance(e, ast.Name):
             d = du.unique_value(nid, e.id)
@@ -600,6 +661,25 @@ def _is_rounded_relative_time(du: DefUse, nid: int, e: ast.AST) -> Tuple[bool, s
                          f"float control times are rounded as {f}, not (T - START)/DT")
 
 
+def o4(prog: Program, chk: Check) -> None:
+    """No stale step cache in the control module (memo-key completeness, shared with C20 A7)."""
+    from rules.c20 import _a7_unit
+    chk.rule("O4", "the control module keeps no memo of step indices whose key / validity test "
+             "omits a parameter the cached value depends on (dt, start_time): such a cache makes "
+             "a control act at the step of an EARLIER computation", floor=1)
+    n = 0
+    for u in prog.units_in("control"):
+        if isinstance(u.node, ast.Lambda) or u.cls is None:
+            continue
+        for (st, attr, key_expr, covered, missing) in _a7_unit(u):
+            n += 1
+            chk.add("O4", u, f"memo {attr}[{norm(key_expr)}]", not missing,
+                    f"keyed / validated by {covered}" if not missing else
+                    f"cached value depends on {missing} but is looked up without it", st)
+    chk.add("O4", prog.module("control"), f"{n} hand-written memo(s) in the control module", True,
+            "none stale", function="<module>")
+
+
 def run(prog: Program, chk: Check) -> None:
     chk.explanation = (
         "Decides the order clauses of C18: O1 composition order of stacked controls in Control "
@@ -615,3 +695,4 @@ def run(prog: Program, chk: Check) -> None:
     o2(prog, chk)
     o3(prog, chk)
     o3b(prog, chk)
+    o4(prog, chk)
